@@ -369,7 +369,8 @@ func runCase(t *testing.T, rnd *hx.Rand, caseNo int, nops int, withStore bool, i
 	synctest.Test(t, func(t *testing.T) {
 		w.t0 = time.Now()
 		t0ms = w.t0.UnixMilli()
-		cc := config.CacheConfig{Name: name, Size: 8, HitForPass: hfpCfg}
+		// sizes 8..15: always 8 shards of one slot (the filler key evicts), but only 8 is a multiple of the shard count
+		cc := config.CacheConfig{Name: name, Size: 8 + caseNo%8, HitForPass: hfpCfg}
 		if withStore {
 			w.fs = &fakeStore{data: map[string][]byte{}}
 			store.VerifRegister(w.storeURL, w.fs)
